@@ -89,6 +89,10 @@ def kf_float_paths(fl):
         if exact is None or got is None:
             return False
     lim = 2 ** 32 * 10 ** 6
+    if fl["op"] in ("d*k", "k*d") or fl["op"][:2] in ("d+", "d-") or fl["op"].endswith("+d"):
+        # these build the result from float seconds: operand errors add up (k * ulp/2 for a product), so the
+        # exact zone ends earlier
+        lim = 2 ** 30 * 10 ** 6
     big = abs(fl["a_us"]) >= lim or (binary and abs(fl["b_us"]) >= lim) or (fl.get("native_us") is not None and abs(exact) >= lim)
     if not big:
         return False
